@@ -407,7 +407,7 @@ func (fr *frame) allocLen(t *Term, pos token.Pos) int {
 		if n < 0 {
 			panic(runtimePanic{"makeslice: len out of range"})
 		}
-		if n > int64(p.eng.cfg.MaxConcreteAlloc) {
+		if n > int64(p.cfg.MaxConcreteAlloc) {
 			if lim, ok := p.ghost["alloc-limit"]; ok {
 				l := concInt(lim, "alloc limit")
 				p.assertCond(p.tc.Bool(n <= l), "alloc-bounded", pos)
@@ -424,7 +424,7 @@ func (fr *frame) allocLen(t *Term, pos token.Pos) int {
 		// allocation monitor: the requested size must not exceed the limit
 		p.assertCond(p.tc.Cmp(OpSLe, x, lim.(*Term)), "alloc-bounded", pos)
 	}
-	capN := int64(p.eng.cfg.AllocCap)
+	capN := int64(p.cfg.AllocCap)
 	if !p.branch(p.tc.Cmp(OpSLe, x, p.intConst(capN))) {
 		p.note("cut: symbolic allocation larger than alloc cap")
 		p.end(stCut, fmt.Sprintf("symbolic allocation length > %d (outside bound)", capN))
